@@ -489,13 +489,23 @@ def _r4(ctx, cf):
     for v in ("hbonds", "henergies", "framesecondary"):
         ctx.decide(v in inside, "C08-R4", C.line(loop), rel, "dssp", "`%s` constructed inside the frame loop" % v, "",
                    "`%s` is not constructed per frame: assignments of one frame leak into the next" % v)
-    # output index secondary[i*n_residues + j]
-    stores = [n for n in C.walk(loop) if n["kind"] == "BinaryOperator" and n.get("opcode") == "=" and C.root_var(C.kids(n)[0])[0] == "secondary"]
-    ok = bool(stores) and re.sub(r"[\s()]", "", C.text(C.kids(stores[0])[0])) in ("secondary[i*n_residues+j]",)
-    ctx.decide(ok, "C08-R4", C.line(stores[0]) if stores else C.line(loop), rel, "dssp", "output index i*n_residues + j", "", "per-frame output offset changed: %s" % (C.text(C.kids(stores[0])[0]) if stores else None))
-    fx = [n for n in C.walk(loop) if n["kind"] == "VarDecl" and n.get("name") == "framexyz"]
-    ok = bool(fx) and re.sub(r"[\s()]", "", C.text(C.kids(fx[0])[-1])) == "xyz+i*n_atoms*3"
-    ctx.decide(ok, "C08-R4", C.line(fx[0]) if fx else C.line(loop), rel, "dssp", "frame pointer xyz + i*n_atoms*3", "", "frame pointer is %s" % (C.text(C.kids(fx[0])[-1]) if fx else None))
+    # output index and frame pointer by value (sa/symval.py, shared with C15-R1): residue j of frame i is written to secondary[i*n_residues + j], and the
+    # per-frame kernels receive xyz + 3*i*n_atoms
+    from .c15 import dssp_frame_by_value
+    from ..poly import Poly, Rat
+    fb = dssp_frame_by_value(ctx, cf)
+    if fb["error"]:
+        ctx.undecided("C08-R4", C.line(loop), rel, "dssp", "output index i*n_residues + j", fb["error"])
+    else:
+        iv = Rat(Poly.var(fb["ivar"] or "i"))
+        want = iv * Rat(Poly.var("n_residues")) + Rat(Poly.var("j"))
+        offs = [o_ for o_ in fb["offsets"].values()]
+        ok = bool(offs) and all(isinstance(o_, Rat) and (o_ - want).n.is_zero() for o_ in offs)
+        ctx.decide(ok, "C08-R4", C.line(loop), rel, "dssp", "output index i*n_residues + j", "", "per-frame output offset changed: %s" % sorted({repr(o_) for o_ in offs}))
+        wantp = iv * Rat(Poly.var("n_atoms")) * 3
+        ptrs = fb["frame_ptrs"]
+        okp = len(ptrs) >= 2 and all(p_.base == "xyz" and isinstance(p_.off, Rat) and (p_.off - wantp).n.is_zero() for _, p_ in ptrs)
+        ctx.decide(okp, "C08-R4", C.line(loop), rel, "dssp", "frame pointer xyz + i*n_atoms*3", "", "the per-frame kernels receive %s" % ([(n_, repr(p_)) for n_, p_ in ptrs],))
     # kabsch_sander: pointers advance by the per-frame stride at the end of each iteration
     rel = "mdtraj/geometry/src/geometry.cpp"
     fn = cf.function(rel, "kabsch_sander")
